@@ -1,0 +1,45 @@
+//go:build verif
+
+// Contracts for the deductive verifier in /verif (comment-only; compiled only
+// with -tags verif).  Syntax: see /verif/DESIGN.md.
+package standalone
+
+// C03 / C02: the standalone (file://) transfer agent.  An upload is reported
+// done only when the remote store was seen to hold the object with exactly the
+// announced size, or the object file was linked or copied to the remote
+// store's path for that very id (then it holds the bytes of the local file);
+// a download is only served from a remote object of exactly the announced
+// size.  (The ghost file system has one object store: objpath(oid) here is
+// the path the *remote* configuration gives, which is the only one asked.)
+//@ func (*fileHandler).upload
+//@   props C03
+//@   requires @inv h != nil && h.remoteConfig != nil
+//@   at call (*config.Configuration).LFSObjectExists:1 assert arg0__ == h.remoteConfig && arg1__ == oid && arg2__ == size
+//@   at call (*fs.Filesystem).ObjectPath:1 assert arg1__ == oid
+//@   at call lfs.LinkOrCopy:1 assert arg0__ == h.remoteConfig && arg1__ == path && arg2__ == dest && !lastexists()
+//@   ensures result0 == oid
+//@   ensures result2 == nil && !lastexists() && oid != fs.EmptyObjectSHA256 && old(fexists(path)) && path != objpath(oid) ==> fexists(objpath(oid)) && fdata(objpath(oid)) == old(fdata(path))
+//@ func (*fileHandler).download
+//@   props C02
+//@   requires @inv h != nil && h.remoteConfig != nil && h.config != nil
+//@   at call (*config.Configuration).LFSObjectExists:1 assert arg0__ == h.remoteConfig && arg1__ == oid && arg2__ == size
+//@   at call (*fs.Filesystem).ObjectPath:1 assert arg1__ == oid && lastexists()
+//@   at call lfs.LinkOrCopy:1 assert arg0__ == h.config && arg1__ == src && arg2__ == path && lastexists()
+//@   ensures result0 == oid
+//@   ensures result2 == nil ==> lastexists()
+//@ func (*fileHandler).dispatch
+//@   props C03 C02
+//@   requires @inv h != nil && msg != nil
+//@   at call (*standalone.fileHandler).upload:1 assert msg.Event == "upload" && arg1__ == msg.Oid && arg2__ == msg.Size && arg3__ == msg.Path
+//@   at call (*standalone.fileHandler).download:1 assert msg.Event == "download" && arg1__ == msg.Oid && arg2__ == msg.Size
+//@   at call (*standalone.fileHandler).respond:1 assert msg.Event == "upload"
+//@   at call (*standalone.fileHandler).respond:2 assert msg.Event == "download"
+//@ func (*fileHandler).respond
+//@   assumed
+//@   props C03 C02
+//@   modifies fresh
+//@ func standaloneFailure
+//@   assumed
+//@   props C03 C02
+//@   modifies fresh
+//@   ensures false
